@@ -50,11 +50,57 @@ def probe_out(ver, s):
     return core.impl_construct(ver, MASK[ver], s)
 
 
-def history_step(rng):
+def neighbours(ver, s, rng):
+    """strings a too-coarsely keyed cache would confuse with `s`: other minor version, other spelling,
+    one metric changed, one optional metric added"""
+    out = []
+    pfx, fields = obs.parse_fields(ver, s)
+    V = core.VOCAB[ver]
+    if ver == "3":
+        other = "CVSS:3.1/" if pfx == "CVSS:3.0/" else "CVSS:3.0/"
+        out.append(other + s[len(pfx):])
+    f = list(fields)
+    rng.shuffle(f)
+    out.append(pfx + "/".join("%s:%s" % mv for mv in f))
+    f = list(fields)
+    i = rng.randrange(len(f))
+    f[i] = (f[i][0], rng.choice(V["legal"][f[i][0]]))
+    out.append(pfx + "/".join("%s:%s" % mv for mv in f))
+    absent = [m for m in V["order"] if m not in dict(fields)]
+    if absent:
+        m = rng.choice(absent)
+        out.append(s + "/%s:%s" % (m, rng.choice(V["legal"][m])))
+    return out
+
+
+def distinguishing_probes(ctx, rng, n):
+    """valid vectors whose scores change when only the minor version / one optional group changes
+    (found with the pure model), so that state shared between such look-alikes is observable"""
+    from .. import spaces
+    out = []
+    if not ctx.model_available:
+        return out
+    cand = [core.render("3", a, prefix="") for a in spaces.all_base("3") if a["S"] == "C"]
+    rng.shuffle(cand)
+    cand = cand[:1500]
+    r0 = core.run_driver(["C\t3\ts\t" + core.enc("CVSS:3.0/" + b) for b in cand])
+    r1 = core.run_driver(["C\t3\ts\t" + core.enc("CVSS:3.1/" + b) for b in cand])
+    for b, x, y in zip(cand, r0, r1):
+        if x != y:
+            out.append(("3", rng.choice(["CVSS:3.0/", "CVSS:3.1/"]) + b))
+    rng.shuffle(out)
+    return out[:n]
+
+
+def history_step(rng, near=None):
     im = core.impl()
     k = rng.randrange(8)
     ver = rng.choice("234")
     s = core.rand_vector(ver, rng)
+    if near is not None and rng.random() < 0.5:
+        ver = near[0]
+        s = rng.choice(neighbours(near[0], near[1], rng))
+        k = rng.choice([0, 2, 5])
     try:
         if k == 0:
             im.cls[ver](s)
@@ -94,6 +140,7 @@ def run(ctx):
         if rng.random() < 0.15:
             s = core.edit(s, rng, ver)
         probes_.append((ver, s))
+    probes_ += distinguishing_probes(ctx, rng, ctx.n(40, 300))
     ctx.sample({"probe": probes_[0][1]})
     # (a) fresh process = reference
     ops = [["C", v, s] for v, s in probes_]
@@ -103,6 +150,23 @@ def run(ctx):
         return
     base = [probe_out(v, s) for v, s in probes_]
     ctx.count(len(probes_))
+    if ctx.model_available:
+        for ver in "234":
+            idx = [i for i, (v, s) in enumerate(probes_) if v == ver and core.sendable(s)]
+            if idx:
+                mo = core.run_driver(["C\t%s\t%s\t%s" % (ver, MASK[ver], enc(probes_[i][1])) for i in idx])
+                for i, m_ in zip(idx, mo):
+                    if core.canon_out(MASK[ver], m_) != core.canon_out(MASK[ver], base[i]):
+                        # the very first in-process evaluation already differs from the pure prediction:
+                        # either the model is wrong (tie) or an earlier evaluation leaked state
+                        iso = probes.run_probe(sys.executable, [["C", ver, probes_[i][1]]], {"PYTHONHASHSEED": "0"})
+                        r = (iso.get("results") or [[None]])[0]
+                        iso_scores = " ".join(r[1]["scores"]) if r and r[0] == "ok" else None
+                        mine = base[i].split("\t")[1] if base[i].startswith("ok") else None
+                        if iso_scores is not None and mine is not None and iso_scores != mine:
+                            ctx.violation("result-depends-on-history", "a result in this process differs from the result of the same call alone in a fresh process",
+                                          probes_[i][1], iso_scores, mine, replay={"kind": "fresh", "ver": ver, "s": probes_[i][1]})
+                        base[i] = core.canon_out(MASK[ver], m_) if m_.startswith(("ok", "err")) else base[i]
     # model prediction
     if ctx.model_available:
         for ver in "234":
@@ -125,15 +189,16 @@ def run(ctx):
     for h in range(nh):
         hist_seed = rng.randrange(1 << 30)
         hr = __import__("random").Random(hist_seed)
+        i = hr.randrange(len(probes_))
+        near = probes_[i] if (probes_[i][0] in "234" and obs.construct(*probes_[i])[0] is not None) else None
         with contextlib.redirect_stdout(out), contextlib.redirect_stderr(err):
-            kinds = [history_step(hr) for _ in range(hr.randrange(1, 12))]
+            kinds = [history_step(hr, near) for _ in range(hr.randrange(1, 12))]
         if "cli" in kinds:
             out.seek(0), out.truncate(0)
         elif out.getvalue() or err.getvalue():
             ctx.violation("writes-to-stdout-or-stderr", "a library call outside the CLI / interactive entry points writes to stdout/stderr",
                           {"history_seed": hist_seed}, "", (out.getvalue() + err.getvalue())[:200], replay={"kind": "history", "seed": hist_seed})
             out.seek(0), out.truncate(0)
-        i = hr.randrange(len(probes_))
         v, s = probes_[i]
         ctx.count()
         ctx.nontrivial(("history", hist_seed, i))
@@ -188,9 +253,9 @@ def run(ctx):
     # (e) decimal contexts
     modes = [decimal.ROUND_CEILING, decimal.ROUND_DOWN, decimal.ROUND_FLOOR, decimal.ROUND_HALF_DOWN, decimal.ROUND_HALF_EVEN,
              decimal.ROUND_HALF_UP, decimal.ROUND_UP, decimal.ROUND_05UP]
-    dvecs = [(v, s) for v, s in probes_ if v in "23"][: ctx.n(40, 200)]
+    dvecs = [(v, s) for v, s in probes_][: ctx.n(60, 300)]
     for _ in range(ctx.n(300, 5000)):
-        v = rng.choice("23")
+        v = rng.choice("234")
         dvecs.append((v, core.rand_vector(v, rng, p_absent=0.3)))
     dbase = [core.impl_construct(v, "s", s) for v, s in dvecs]
     for mode in modes:
@@ -218,9 +283,11 @@ def replay(data):
     if r["kind"] == "history":
         base = probe_out(r["ver"], r["s"]) if "s" in r else None
         hr = __import__("random").Random(r["seed"])
+        hr.random()  # the probe index draw
         out = io.StringIO()
+        near = (r["ver"], r["s"]) if "s" in r and obs.construct(r["ver"], r["s"])[0] is not None else None
         with contextlib.redirect_stdout(out), contextlib.redirect_stderr(out):
-            kinds = [history_step(hr) for _ in range(hr.randrange(1, 12))]
+            kinds = [history_step(hr, near) for _ in range(hr.randrange(1, 12))]
         got = probe_out(r["ver"], r["s"]) if "s" in r else None
         ok = base == got and ("cli" in kinds or not out.getvalue())
         return ok, "history seed %d: probe before %r after %r, captured output %r" % (r["seed"], base, got, out.getvalue()[:100])
